@@ -29,6 +29,7 @@ M = {
  "m22_fd_bounds_dropped": ("lbfgsb/main.py", "        bounds=(lb, ub),\n        finite_diff_rel_step=finite_diff_rel_step,\n", "        bounds=None,\n        finite_diff_rel_step=finite_diff_rel_step,\n", ["C16", "C02"]),
  "m23_update_fun_pairs_not_filtered": ("lbfgsb/main.py", "                X, G = make_X_and_G_respect_strong_wolfe(X, G, eps_SY, logger=logger)\n", "                pass\n", ["C13"]),
  "m24_diag_off_by_row": ("lbfgsb/utils.py", "        hess_inv_diag[i] = hess_inv.matvec(v)[i]\n", "        hess_inv_diag[i] = hess_inv.matvec(v)[i - 1 if i == n_params - 1 and n_params > 2 else i]\n", ["C18"]),
+ "m26_pgtol_report_strict": ("lbfgsb/main.py", "    if projgr(x, grad, lb, ub) <= _gtol:\n        istate.task_str = \"CONVERGENCE: NORM_OF_PROJECTED_GRADIENT_<=_PGTOL\"", "    if projgr(x, grad, lb, ub) < _gtol:\n        istate.task_str = \"CONVERGENCE: NORM_OF_PROJECTED_GRADIENT_<=_PGTOL\"", ["C04"]),
  "m25_linesearch_accepts_equal": ("lbfgsb/linesearch.py", "            if f_m1 < best_f:\n", "            if f_m1 <= best_f:\n", ["C11", "C03"]),
 }
 EXTRA = {
